@@ -137,7 +137,7 @@ func child(c *vf.Ctx) {
 	backend, dir, out := os.Getenv("C01_BACKEND"), os.Getenv("C01_DIR"), os.Getenv("C01_OUT")
 	c.Seed = int64(seed / 1000)
 	rng := c.Rng(stream)
-	h := hist.Gen(rng, seed, nBlocks, 6)
+	h := genHist(rng, seed, nBlocks, int(stream)-100)
 	db, err := dbm.NewDB("app", dbm.BackendType(backend), dir)
 	if err != nil {
 		panic(err)
@@ -213,7 +213,7 @@ func tailStr(s string, n int) string {
 }
 
 func run(c *vf.Ctx) {
-	nHist := c.N(2, 16)
+	nHist := c.N(3, 16)
 	nBlocks := c.N(8, 30)
 	variants := []variant{
 		{name: "rerun"},
@@ -236,7 +236,7 @@ func run(c *vf.Ctx) {
 	}())
 	for hi := 0; hi < nHist; hi++ {
 		rng := c.Rng(uint64(100 + hi))
-		h := hist.Gen(rng, uint64(c.Seed)*1000+uint64(hi), nBlocks, 6)
+		h := genHist(rng, uint64(c.Seed)*1000+uint64(hi), nBlocks, hi)
 		refInit, refTrace, refCh, err := playVariant(c, h, variant{name: "ref", backend: "memdb"}, rng, fmt.Sprintf("h%d-ref", hi))
 		if err != nil {
 			c.Violation("reference-run-error", map[string]any{"history": h}, "reference run failed: %v", err)
@@ -334,4 +334,10 @@ func run(c *vf.Ctx) {
 	c.Require("failed txs", c.Counter("tx:fail/fail")+c.Counter("tx:oog/fail"), 2)
 	c.Require("restarts", c.Counter("restarts"), 5)
 	c.RequireCounter("process_level_restarts", 1)
+}
+
+// genHist: every third history uses the fan-out profile, every third the failing-tx profile; the fan-out one has (clone realms changed by equal
+// amounts inside one message: ties in every per-realm ordering).
+func genHist(rng *rand.Rand, seed uint64, nBlocks, hi int) *hist.History {
+	return hist.GenP(rng, seed, nBlocks, 6, hist.Profile{FanBoost: hi%3 == 1, FailBoost: hi%3 == 2})
 }
